@@ -108,6 +108,8 @@ def gen_case(rng, tier):
                    "warn_filter": rng.choice(mc.WARN_FILTERS_AND_ERROR), "prewarm_registry": rng.random() < 0.3},
         "ops": [],
     }
+    if rng.random() < 0.25:
+        case_["config"]["stack"] = rng.choice(mc.STACKS[3:])
     if conc:
         case_["inputs"]["concurrent"] = conc
         case_["config"]["p_switch"] = rng.choice((2, 4, 8))
@@ -209,7 +211,7 @@ def run_case(case, sched):
             if mode not in ("uniform", "sparse", "reverse", "insertion"):
                 raise InvalidCase("bad mode")
             try:
-                v, _, nwarn = mc.call_bottleneck(sched, A, B, False, mode, wf)
+                v, _, nwarn = mc.call_bottleneck(sched, A, B, False, mode, wf, stack=cfg.get("stack"))
             except mc.WarnedAsError:
                 # injected fault (warnings are errors in this process): failing with the warning is acceptable, a wrong
                 # value is not; the evaluation is repeated under 'always' so that the case still decides something
@@ -364,6 +366,10 @@ def shrink_candidates(case):
     if cfg.get("warn_filter") != "always":
         c = copy.deepcopy(case)
         c["config"]["warn_filter"] = "always"
+        yield c
+    if cfg.get("stack"):
+        c = copy.deepcopy(case)
+        del c["config"]["stack"]
         yield c
     for sec_case in shr.generic_candidates({"inputs": {"dgm1": case["inputs"]["dgm1"],
                                                        "dgm2": case["inputs"]["dgm2"]}},
